@@ -55,16 +55,18 @@ def correspondence(ctx):
             ctx.traces += len(pts)
 
 
-def classify(ctx, kind, name, z, w, pre, gap_width, isolated, required, extra=None, defer=None, why_not_isolated=None):
+def classify(ctx, kind, name, z, w, pre, gap_width, isolated, required, extra=None, defer=None, why_not_isolated=None, us=0):
     """the PEP 495 statements for one wall second, on the implementation"""
     from dateutil import tz
     case = {"kind": kind, "zone": name, "w": w, "gap_width": gap_width or 0}
+    if us:
+        case["us"] = us          # the wall time is w + us microseconds; its pre-images are those of w plus us
     if extra:
         case.update(extra)
     probs = []
     n = len(pre)
     try:
-        d0, d1 = Z.wall_dt(z, w, 0), Z.wall_dt(z, w, 1)
+        d0, d1 = Z.wall_dt(z, w, 0, us), Z.wall_dt(z, w, 1, us)
         ex0, ex1 = tz.datetime_exists(d0), tz.datetime_exists(d1)
         am0, am1 = tz.datetime_ambiguous(d0), tz.datetime_ambiguous(d1)
         o0, o1 = d0.utcoffset(), d1.utcoffset()
@@ -78,8 +80,8 @@ def classify(ctx, kind, name, z, w, pre, gap_width, isolated, required, extra=No
             if w - int(Z.secs(o0)) != pre[0] or w - int(Z.secs(o1)) != pre[1]:
                 probs.append("fold=0/1 denote %d/%d, not the earlier/later instant %s" % (w - int(Z.secs(o0)), w - int(Z.secs(o1)), pre))
             for t, f in zip(pre, (0, 1)):
-                r = (Z.EPOCH + Z.TD(seconds=t)).replace(tzinfo=tz.UTC).astimezone(z)
-                if (Z.ts(r), r.fold) != (w, f):
+                r = (Z.EPOCH + Z.TD(seconds=t, microseconds=us)).replace(tzinfo=tz.UTC).astimezone(z)
+                if (Z.ts(r), r.fold, r.microsecond) != (w, f, us):
                     probs.append("conversion of instant %d gives (%d, fold=%d), expected fold=%d" % (t, Z.ts(r), r.fold, f))
         if n == 1:
             if o0 != o1:
@@ -111,7 +113,7 @@ def classify(ctx, kind, name, z, w, pre, gap_width, isolated, required, extra=No
         ctx.case((name, w), nontrivial=False)
         ctx.count("not_required_ok" if not probs else "not_required_fails")
         return
-    ctx.case((name, w)); ctx.count("preimages_%d" % n); ctx.count("law:" + kind)
+    ctx.case((name, w, us)); ctx.count("preimages_%d" % n); ctx.count("law:" + kind + (":subsecond" if us else ""))
     if n == 0 and isolated:
         ctx.count("gap_isolated")
     for p in probs[:1]:
@@ -160,6 +162,7 @@ def oracle(ctx):
         lim = (seq[-1][0] + min(seq[-1][1], seq[-1][2])) if seq else None
         pres = [[int(x) for x in s.strip("[]").split(",") if x] for s in line.split()[1:]]
         extra = {"stream": Z.hexs(data)} if name.startswith(("syn", "rnd")) else None
+        subw = {u + o + d for (u, b, a) in seq for o in (b, a) for d in (-1, 0)}
         for w, pre in zip(wps, pres):
             if pre != tl.pre(w):
                 Z.report(ctx, KNOWN, "Lean Spec.pre and the independent enumeration disagree", {"kind": "tzfile", "zone": name, "w": w}, {"lean": pre, "reader": tl.pre(w)})
@@ -169,6 +172,10 @@ def oracle(ctx):
             if not tl.utc and tl.first != tl.types[0]:
                 required = False       # no transition at all: the file's type 0 applies, "before the first transition" is empty
             classify(ctx, "tzfile", name, z, w, pre, gap_width, isolated, required, extra, why_not_isolated=why)
+            # sub-second wall times in the second before / after each transition's two wall readings
+            if w in subw:
+                for usec in (1, 500000, 999999):
+                    classify(ctx, "tzfile", name, z, w, pre, gap_width, isolated, required, extra, why_not_isolated=why, us=usec)
     # fixed zones: exactly one pre-image everywhere
     for o in P4.FIXED:
         z = tz.tzutc() if o == 0 else tz.tzoffset("X", o)
@@ -195,6 +202,22 @@ def oracle(ctx):
     ref = tz.tzstr("EST5EDT,M4.1.0,M10.5.0")
     _, wps = Z.range_probes(ref, [1990, 2000, 2003, 2020])
     blackbox("tzical", "tzical:US-Eastern", ical, -18000, -14400, wps)
+    # tzical zones with finite rules / RDATE lists / several eras, queried on ONE object after a late
+    # query, in a shuffled order; pre-images from a fresh object per instant (history independence; seed C04G)
+    import datetime as _dt
+    for vname, text in Z.FINITE_VTZS:
+        shared = Z.load_vtz(text)
+        _dt.datetime(2020, 6, 1, 12, tzinfo=tz.UTC).astimezone(shared)
+        fresh0 = Z.load_vtz(text)
+        offs = sorted({int(c.tzoffsetto.total_seconds()) for c in fresh0._comps})
+        onsets = Z.vtz_onsets_utc(fresh0)
+        wps = sorted({t + o + d for t in onsets for o in offs for d in (-1, 0, 1, -1800, 1800)})
+        ctx.subrng("c05-vtz-" + vname).shuffle(wps)
+        for w in wps:
+            pre = sorted({t for t in (w - o for o in offs)
+                          if Z.ts((Z.EPOCH + Z.TD(seconds=t)).replace(tzinfo=tz.UTC).astimezone(Z.load_vtz(text))) == w})
+            classify(ctx, "tzical-finite", "tzical:" + vname, shared, w, pre,
+                     (max(offs) - min(offs)) if not pre else None, True, True)
     for s in Z.LOCAL_TZS:
         ref = tz.tzstr(s)
         std, dst = int(ref._std_offset.total_seconds()), int(ref._dst_offset.total_seconds())
